@@ -179,6 +179,113 @@ def run(ctx, R):
                     % (t, "the indexer" if t in fi else "the engine", "the engine" if t in fi else "the indexer"))
     suspension_table(ctx, R)
     missing_nested_value(ctx, R)
+    empty_fold_defaults(ctx, R)
+
+
+def empty_fold_defaults(ctx, R):
+    """r8: when a @fold is empty (or does not exist) the engine does not run its component, so every output declared anywhere below
+    it - in folds nested at any depth, whether or not the folds in between have outputs of their own - must be filled with the
+    default. The worklist loop that does this (located as the block that seeds a queue from `.folds.values()` and pops it) is
+    evaluated on a nest of folds F1{no outputs; F2{o2, count; F3{o3}}}, F4{o4}: the filled keys are exactly all declared outputs."""
+    C = ctx.core
+    R.rule("r8", "empty-fold defaults reach every output of every nested fold, through folds that have no outputs of their own (worklist evaluated)")
+    EXEp = "trustfall_core::interpreter::execution::"
+    found = None
+    for f in C.fns:
+        if not f["path"].startswith(EXEp) or "::tests" in f["path"]:
+            continue
+        for blk in walk(f["body"]):
+            if blk.get("k") != "block":
+                continue
+            lets = [s for s in blk.get("stmts", []) if s.get("k") == "let" and s.get("pat", {}).get("k") == "bind" and "init" in s and
+                    any(c.get("name") == "values" and ekey(c.get("recv", {})).endswith(".folds") for c in calls_in(s["init"]))]
+            loops = [s for s in blk.get("stmts", []) + ([blk["tail"]] if "tail" in blk else []) if any(x.get("k") == "loop" for x in walk(s))]
+            qbids = {s["pat"].get("bid") for s in lets}
+            pops = [c for lp in loops for c in calls_in(lp) if c.get("k") == "mcall" and c.get("name") == "pop" and
+                    strip(c.get("recv", {})).get("k") == "local" and strip(c["recv"]).get("bid") in qbids]
+            if lets and pops:      # the queue seeded from `.folds.values()` is the one the loop pops
+                found = (f, blk)
+    if found is None:
+        R.fail("r8", "anchor", "-", "the worklist that fills the outputs of nested folds of an empty fold was not found in interpreter::execution")
+        return
+    f, blk = found
+    bound = set()
+    for n in walk(blk):
+        if n.get("k") in ("let", "letx") and "pat" in n:
+            stack = [n["pat"]]
+            while stack:
+                q = stack.pop()
+                if isinstance(q, dict):
+                    if q.get("k") == "bind":
+                        bound.add(q.get("bid"))
+                    stack.extend(v for v in q.values() if isinstance(v, (dict, list)))
+                elif isinstance(q, list):
+                    stack.extend(q)
+        if n.get("k") == "match":
+            for a in n["arms"]:
+                stack = [a["pat"]]
+                while stack:
+                    q = stack.pop()
+                    if isinstance(q, dict):
+                        if q.get("k") == "bind":
+                            bound.add(q.get("bid"))
+                        stack.extend(v for v in q.values() if isinstance(v, (dict, list)))
+                    elif isinstance(q, list):
+                        stack.extend(q)
+        if n.get("k") == "closure":
+            for p in n.get("params", []):
+                stack = [p]
+                while stack:
+                    q = stack.pop()
+                    if isinstance(q, dict):
+                        if q.get("k") == "bind":
+                            bound.add(q.get("bid"))
+                        stack.extend(v for v in q.values() if isinstance(v, (dict, list)))
+                    elif isinstance(q, list):
+                        stack.extend(q)
+    free = {}
+    for n in walk(blk):
+        if n.get("k") == "local" and n.get("bid") not in bound:
+            free[n["bid"]] = C.S(n.get("ty")) or ""
+
+    def fold(eid, outs, count, inner):
+        comp = A.Struct(IR + "IRQueryComponent", {"outputs": S.MapV([(o, A.Sym("cf:" + o)) for o in outs]),
+                                                 "folds": S.MapV([(x.fields["eid"], x) for x in inner])})
+        return A.Struct(IR + "IRFold", {"eid": eid, "component": comp,
+                                        "fold_specific_outputs": S.MapV([(c_, A.Sym("count")) for c_ in count])})
+    f3 = fold(13, ["o3"], [], [])
+    f2 = fold(12, ["o2"], ["c2"], [f3])
+    f1 = fold(11, [], [], [f2])
+    f4 = fold(14, ["o4"], [], [])
+    top = A.Struct(IR + "IRQueryComponent", {"outputs": S.MapV([]), "folds": S.MapV([(11, f1), (14, f4)])})
+    values = S.MapV([])
+    env = {}
+    for bid, ty in free.items():
+        ty = ty.replace("&mut ", "").lstrip("&")       # the block may live in a helper that takes these by reference
+        if "IRQueryComponent" in ty:
+            env[bid] = A.Cell(top)
+        elif "ir::IRFold" in ty:          # the (empty) fold itself: the worklist starts from its component's folds
+            env[bid] = A.Cell(A.Struct(IR + "IRFold", {"eid": 10, "component": top, "fold_specific_outputs": S.MapV([])}))
+        elif "BTreeMap<(" in ty and "ValueOrVec" in ty:
+            env[bid] = A.Cell(values)
+        elif ty.startswith("core::option::Option<") and "ValueOrVec" in ty:
+            env[bid] = A.Cell(S.some(A.Sym("default")))
+        else:
+            R.fail("r8", "unanalysable/free", C.loc(blk["sp"]), "the worklist block reads a local of type %s that the model does not provide (fail closed)" % ty[:80])
+            return
+    try:
+        A.Interp(C, S.intrinsics(), max_steps=100000).ev(blk, env)
+    except A.Unsupported as e:
+        R.fail("r8", "unanalysable", C.loc(blk["sp"]), "cannot evaluate the nested-fold default worklist: %s (fail closed)" % e)
+        return
+    except A.PanicReached as e:
+        R.fail("r8", "panic", C.loc(blk["sp"]), "the nested-fold default worklist panics: %s" % e.what)
+        return
+    got = sorted((A.deref(A.deref(k).elems[0]), A.deref(A.deref(k).elems[1])) for k, _ in values.items())
+    want = sorted([(12, "o2"), (12, "c2"), (13, "o3"), (14, "o4")])
+    R.check(got == want, "r8", "defaults-reach-every-nested-output", C.loc(blk["sp"]),
+            "for an empty fold with nested folds F1{no outputs; F2{o2, count c2; F3{o3}}} and F4{o4} the defaults are filled for %s, expected %s: "
+            "rows of queries whose outer fold is empty lack declared outputs (or the engine indexes a missing key)" % (got, want))
 
 
 def missing_nested_value(ctx, R):
